@@ -96,17 +96,21 @@ define(
     ],
     ['designs are stated at index level at the push site; legality of the '
      'admitted set is proved at ID level'],
-    'Legality of every design pushed by the exhaustive search (non-empty, '
-    'disjoint, treatment within t, control contains c_fixed and unassigned ct '
-    'geos, within c minus T), of the admitted geo set (subset of assignable; '
-    'must-include geos admitted unless n_geos_max truncates: known finding), '
-    'of the index classes (partition, row encoding) is discharged for all '
-    'inputs; the greedy search and the ID-level result list are checked by the '
-    'bounded run-time contract.',
+    'Discharged for all inputs: legality of every design pushed by the '
+    'exhaustive and by the greedy search (non-empty, disjoint, treatment '
+    'within t, control contains c_fixed and unassigned ct geos, within c minus '
+    'T; greedy via the while-loop invariant), of the admitted geo set (subset '
+    'of assignable; must-include geos admitted unless n_geos_max truncates: '
+    'KNOWN FINDING, the clause without that proviso is the one obligation '
+    'that is not discharged), of the index classes (partition, row encoding), '
+    'and the mapping of stored index groups to geo IDs in search_results.  '
+    'The ID-level result lists are also checked by the bounded run-time '
+    'contract.',
     'DESIGN.md section 7, C01',
-    'Proof part modulo the pandas ledger and engine soundness; bounded part '
-    '(greedy, result mapping) enumerates panels <= 6 geos x eligibility '
-    'multisets x parameter grid and is not counted as proved.')
+    'Proof of the property outside the recorded known finding (n_geos_max '
+    'truncation), modulo the pandas ledger and engine soundness; the bounded '
+    'part (panels <= 6 geos x eligibility multisets x parameter grid) is not '
+    'counted as proved.')
 
 define(
     'C02', 'proof',
@@ -170,15 +174,15 @@ define(
         'under C08 (same sidecar)'],
     ['the link between the stored series and the raw input frame (pivot, '
      'truncation to n_pretest_max) is checked by the bounded monitor'],
-    'At the exhaustive push site: stored groups, both stored diagnostics '
+    'At the exhaustive and at the greedy push site: stored groups, both stored diagnostics '
     'copies hold the aggregates of exactly those groups, the stored score is '
     'the score of those series (last entry max budget / required impact when '
     'a budget range is given), and the stored object graph consists of fresh '
     'copies never written again (ownership obligations: no write to frozen '
     'objects, no loop-carried alias).',
     'DESIGN.md section 7, C04',
-    'Proof part modulo ledger/engine/deepcopy contract; raw-frame '
-    'correspondence and the greedy search are bounded.')
+    'Proof part modulo ledger/engine/deepcopy contract; the raw-frame '
+    'correspondence (pivot, truncation) is bounded.')
 
 define(
     'C09', 'proof',
